@@ -46,37 +46,49 @@ def concrete(inp):
         temps = [313.15, 353.15, 333.15, 293.15][:n]
     c1, c2 = _fcomp("A", 18.02), _fcomp("B", 46.07)
     bad = []
-    for stated in (False, True):
-        if not stated and n < 2:
-            continue
-        exps = []
-        for c, e, p0 in ((c1, E, P0), (c2, 0.6 * E + 1000, 0.1 * P0)):
+    import numpy as _np
+    scatter = [1.0, 1.07, 0.93, 1.12][:n]
+    for data in ("line", "scattered"):
+        for stated in (False, True):
+            if not stated and n < 2:
+                continue
+            exps, vals = [], {}
+            for c, e, p0 in ((c1, E, P0), (c2, 0.6 * E + 1000, 0.1 * P0)):
+                for k, t in enumerate(temps):
+                    v = p0 * math.exp(-e / RG * (1 / t - 1 / 323.15)) * (scatter[k] if data == "scattered" else 1.0)
+                    vals[(c.name, t)] = v
+                    exps.append(IdealExperiment(name="m", temperature=t, component=c, permeance=pv.Permeance(v), activation_energy=e if stated else None))
+            mem = Membrane(name="m", ideal_experiments=IdealExperiments(experiments=exps))
+            # oracle: nearest experiment, stated energy or least-squares slope of ln P vs 1/T
+            if stated or n < 2:
+                Eo = E
+            else:
+                Eo = -RG * _np.polyfit([1 / t for t in temps], [math.log(vals[("A", t)]) for t in temps], 1)[0]
+            tn = min(temps, key=lambda t: abs(t - T))
+            want = vals[("A", tn)] * math.exp(-Eo / RG * (1 / T - 1 / tn))
+            got = mem.get_permeance(T, c1).value
+            if not close(got, want, 1e-7):
+                bad.append("%s data, stated=%s, experiments at %r: permeance at %r K is %r, nearest experiment (%r K) x Arrhenius factor gives %r"
+                           % (data, stated, temps, T, float(got), tn, want))
+            if data == "line" and n >= 2 and not close(mem.calculate_activation_energy(c1), E, 1e-6, 1e-3):
+                bad.append("regressed activation energy %r for data on a line with E=%r" % (float(mem.calculate_activation_energy(c1)), E))
             for t in temps:
-                exps.append(IdealExperiment(name="m", temperature=t, component=c,
-                                            permeance=pv.Permeance(p0 * math.exp(-e / RG * (1 / t - 1 / 323.15))), activation_energy=e if stated else None))
-        mem = Membrane(name="m", ideal_experiments=IdealExperiments(experiments=exps))
-        want = P0 * math.exp(-E / RG * (1 / T - 1 / 323.15))
-        got = mem.get_permeance(T, c1).value
-        if not close(got, want, 1e-7):
-            bad.append("stated=%s: permeance at %r K is %r, Arrhenius law of the experiments gives %r" % (stated, T, float(got), want))
-        if n >= 2 and not close(mem.calculate_activation_energy(c1), E, 1e-6, 1e-3):
-            bad.append("regressed activation energy %r for data on a line with E=%r" % (float(mem.calculate_activation_energy(c1)), E))
-        for t in temps:
-            if not close(mem.get_permeance(t, c1).value, P0 * math.exp(-E / RG * (1 / t - 1 / 323.15)), 1e-9):
-                bad.append("permeance at experiment temperature %r is not the measured value" % t)
-        sw, sm = mem.get_ideal_selectivity(T, c1, c2, "weight"), mem.get_ideal_selectivity(T, c1, c2, "molar")
-        if not close(sm, sw * c2.molecular_weight / c1.molecular_weight, 1e-9):
-            bad.append("molar selectivity %r, mass selectivity x M2/M1 = %r" % (float(sm), float(sw * c2.molecular_weight / c1.molecular_weight)))
-        ps = c1.get_vapor_pressure
-        for kw, pi in (({}, 0.0), ({"permeate_temperature": 290.0}, ps(290.0)), ({"permeate_pressure": 1.5}, 1.5)):
-            f = mem.get_estimated_pure_component_flux(T, c1, **kw)
-            if not close(f, got * (ps(T) - pi), 1e-9):
-                bad.append("pure-component flux %r with %r, permeance x (Psat - permeate) = %r" % (float(f), kw, float(got * (ps(T) - pi))))
-        try:
-            mem.get_estimated_pure_component_flux(T, c1, permeate_temperature=290.0, permeate_pressure=1.0)
-            bad.append("pure-component flux accepted both permeate temperature and pressure")
-        except ValueError:
-            pass
+                if not close(mem.get_permeance(t, c1).value, vals[("A", t)], 1e-9):
+                    bad.append("%s data: permeance at experiment temperature %r is %r, measured %r" % (data, t, float(mem.get_permeance(t, c1).value), vals[("A", t)]))
+            if data == "line":
+                sw, sm = mem.get_ideal_selectivity(T, c1, c2, "weight"), mem.get_ideal_selectivity(T, c1, c2, "molar")
+                if not close(sm, sw * c2.molecular_weight / c1.molecular_weight, 1e-9):
+                    bad.append("molar selectivity %r, mass selectivity x M2/M1 = %r" % (float(sm), float(sw * c2.molecular_weight / c1.molecular_weight)))
+                ps = c1.get_vapor_pressure
+                for kw, pi in (({}, 0.0), ({"permeate_temperature": 290.0}, ps(290.0)), ({"permeate_pressure": 1.5}, 1.5)):
+                    f = mem.get_estimated_pure_component_flux(T, c1, **kw)
+                    if not close(f, got * (ps(T) - pi), 1e-9):
+                        bad.append("pure-component flux %r with %r, permeance x (Psat - permeate) = %r" % (float(f), kw, float(got * (ps(T) - pi))))
+                try:
+                    mem.get_estimated_pure_component_flux(T, c1, permeate_temperature=290.0, permeate_pressure=1.0)
+                    bad.append("pure-component flux accepted both permeate temperature and pressure")
+                except ValueError:
+                    pass
     return {"ok": not bad, "detail": "; ".join(bad[:3]), "inputs": inp}
 
 
@@ -152,6 +164,7 @@ def permeance(job, n, stated, units):
     inputs = {"n": n, "T": T.t, "E": i1["E"].t, "P0": i1["P0"].t}
     inputs.update({"T%d" % j: i1["Ts"][j].t for j in range(n)})
     fb = [{"n": n, "T": 341.0, "E": 35000.0, "P0": 0.02}, {"n": n, "T": 290.0, "E": -20000.0, "P0": 0.5}]
+    fb += [dict(fb[0], T=tq, T0=t0, T1=t1, T2=t2) for tq in (331.0, 345.0, 352.0) for (t0, t1, t2) in ((343.15, 333.15, 353.15), (353.15, 333.15, 343.15), (333.15, 353.15, 343.15))] if n == 3 else []
     with Patches() as pt:
         pt.set(numpy.linalg, "lstsq", _lstsq_stub(job))
         got = 0
